@@ -20,6 +20,7 @@ import (
 
 	"pgregory.net/rapid"
 
+	"github.com/krotik/ecal/engine"
 	"github.com/krotik/ecal/engine/pool"
 	"github.com/krotik/ecal/verifhook"
 
@@ -41,8 +42,13 @@ type Op struct {
 type Case struct {
 	Ops   []Op       `json:"ops"`
 	Plan  sched.Plan `json:"plan"`
-	Yield int        `json:"yield"` // tasks yield this many times
+	Yield int        `json:"yield"`          // tasks yield this many times
 	Poll  bool       `json:"poll,omitempty"` // a goroutine keeps reading State()/WorkerCount() (read-only accessors) during the case: lock contention
+	// Engine: the pool is the one engine.NewProcessor builds (engine.TaskQueue: one priority queue per root monitor, a
+	// random non-empty one is popped; the queue-is-filling-up callback configured there); a task is submitted as an event
+	// whose only rule runs it (Processor.AddEvent), a dependent burst as one cascade (first event under a root monitor, the
+	// others under child monitors of it with priorities 0..2). A submission the processor refuses is not an accepted task.
+	Engine bool `json:"engine,omitempty"`
 }
 
 func TestMain(m *testing.M) { hx.Main(m, "C09", rule) }
@@ -95,6 +101,8 @@ func init() {
 
 type run struct {
 	tp      *pool.ThreadPool
+	proc    engine.Processor // not nil: engine route
+	refused int
 	s       *sched.Sched
 	tasks   []*task
 	clock   int64
@@ -119,6 +127,25 @@ func (r *run) overrun() *hx.Failure {
 		}
 	}
 	return nil
+}
+
+func (r *run) event(t *task) *engine.Event {
+	return engine.NewEvent(fmt.Sprint("t", t.id), []string{"t"}, map[interface{}]interface{}{"task": t})
+}
+
+// submit hands a task to the pool (directly, or as an event of the processor which owns the pool); false = not accepted
+func (r *run) submit(t *task, m engine.Monitor) bool {
+	if r.proc == nil {
+		r.tasks = append(r.tasks, t)
+		r.tp.AddTask(t)
+		return true
+	}
+	if got, err := r.proc.AddEvent(r.event(t), m); err != nil || got == nil {
+		r.refused++
+		return false
+	}
+	r.tasks = append(r.tasks, t)
+	return true
 }
 
 type snapshot struct {
@@ -209,7 +236,19 @@ func (r *run) blocking(what string, f func()) *hx.Failure {
 }
 
 func runCase(c Case) (fail *hx.Failure) {
-	r := &run{tp: pool.NewThreadPool(), release: make(chan struct{})}
+	r := &run{release: make(chan struct{})}
+	if c.Engine {
+		r.proc = engine.NewProcessor(1)
+		if err := r.proc.AddRule(&engine.Rule{Name: "run", KindMatch: []string{"t"}, ScopeMatch: []string{},
+			Action: func(p engine.Processor, m engine.Monitor, e *engine.Event, tid uint64) error {
+				return e.State()["task"].(*task).Run(tid)
+			}}); err != nil {
+			panic(err)
+		}
+		r.tp = r.proc.ThreadPool()
+	} else {
+		r.tp = pool.NewThreadPool()
+	}
 	r.s = sched.Install(c.Plan)
 	stopPoll := make(chan struct{})
 	if c.Poll {
@@ -249,14 +288,34 @@ func runCase(c Case) (fail *hx.Failure) {
 		verifhook.At("h.op", i)
 		switch op.K {
 		case "add":
+			if r.proc != nil && r.workers == 0 {
+				continue // a stopped processor refuses events
+			}
 			for k := 0; k < op.N; k++ {
-				t := &task{id: len(r.tasks), yield: c.Yield, clock: &r.clock}
-				r.tasks = append(r.tasks, t)
-				r.tp.AddTask(t)
+				r.submit(&task{id: len(r.tasks), yield: c.Yield, clock: &r.clock}, nil)
 			}
 		case "adddep":
 			// a burst whose FIRST task returns only when the others have finished: needs a second worker to be woken
 			if r.workers < 2 {
+				continue
+			}
+			if r.proc != nil {
+				// one cascade: the first event runs under a new root monitor and returns only when the others, added
+				// under child monitors of that root while it runs, have finished
+				rm := r.proc.NewRootMonitor(nil, nil)
+				gate := make(chan struct{})
+				first := &task{id: len(r.tasks), yield: c.Yield, clock: &r.clock, release: r.release, gate: gate}
+				if !r.submit(first, rm) {
+					close(gate)
+					continue
+				}
+				for k := 0; k < op.N; k++ {
+					t := &task{id: len(r.tasks), yield: c.Yield, clock: &r.clock}
+					if r.submit(t, rm.NewChildMonitor(k%3)) {
+						first.waitFor = append(first.waitFor, t)
+					}
+				}
+				close(gate)
 				continue
 			}
 			first := &task{id: len(r.tasks), yield: c.Yield, clock: &r.clock, release: r.release}
@@ -323,9 +382,13 @@ func runCase(c Case) (fail *hx.Failure) {
 			var busy []*task
 			for k := 0; k < 2; k++ {
 				t := &task{id: len(r.tasks), clock: &r.clock, release: r.release, gate: gate}
-				r.tasks = append(r.tasks, t)
-				busy = append(busy, t)
-				r.tp.AddTask(t)
+				if r.submit(t, nil) {
+					busy = append(busy, t)
+				}
+			}
+			if len(busy) != 2 {
+				close(gate) // the processor refused an event (counted); whether it may is not C09's question
+				continue
 			}
 			if f := r.passive("regrow-tasks-start", func() bool {
 				return atomic.LoadInt32(&busy[0].runs) == 1 && atomic.LoadInt32(&busy[1].runs) == 1
@@ -448,8 +511,14 @@ func runCase(c Case) (fail *hx.Failure) {
 
 	rel, _ := r.s.HoldStats()
 	nt := rel > 0 || queuedAtResize || heldAtResize || unsettled
-	key := fmt.Sprint(c.Ops, c.Plan, c.Yield)
+	key := fmt.Sprint(c.Ops, c.Plan, c.Yield, c.Engine)
 	classes := []string{fmt.Sprintf("ops.%d", len(c.Ops)/4*4)}
+	if c.Engine {
+		classes = append(classes, "route.processor-pool-with-engine-task-queue")
+		hx.E.Class("engine.events-refused", int64(r.refused))
+	} else {
+		classes = append(classes, "route.plain-pool-default-queue")
+	}
 	if rel > 0 {
 		classes = append(classes, "window.hold-released-by-addtask-or-op")
 	}
@@ -554,6 +623,7 @@ func genCase(rt *rapid.T) Case {
 		}
 		c.Plan = append(c.Plan, r)
 	}
+	c.Engine = pick(3, "engine") == 0
 	return c
 }
 
@@ -613,7 +683,20 @@ func directed2(yield func(Case) bool) {
 	}
 }
 
+// both routes runs every case of gen through the plain pool and through the processor's pool
+func bothRoutes(gen func(func(Case) bool)) func(func(Case) bool) {
+	return func(yield func(Case) bool) {
+		gen(func(c Case) bool {
+			if !yield(c) {
+				return false
+			}
+			c.Engine = true
+			return yield(c)
+		})
+	}
+}
+
 func TestExhaustive(t *testing.T) {
-	hx.Enumerate(t, "directed-windows", directed, runCase)
-	hx.Enumerate(t, "directed-dependent-and-shrink", directed2, runCase)
+	hx.Enumerate(t, "directed-windows", bothRoutes(directed), runCase)
+	hx.Enumerate(t, "directed-dependent-and-shrink", bothRoutes(directed2), runCase)
 }
